@@ -23,10 +23,11 @@ vlib.standard_check({
     "prop_module": "GateryModel.Properties.C07",
     "exe": "gv_c07",
     "harness": "c07",
-    # harness args after the seed: ncases ncycles mode
-    #   mode 0 no device / 1 Intel / 2 Xilinx / 3 undefined inputs / 4 out-of-range addresses / 5 reset-initialised / 6 guards, 3 write ports, ROMs
-    "streams": {"quick": [[600, 300, 0], [150, 200, 1], [150, 200, 2], [100, 200, 3], [60, 200, 4], [100, 200, 5], [80, 100, 6]],
-                "thorough": [[10000, 2000, 0], [2500, 600, 1], [2500, 600, 2], [2000, 500, 3], [1000, 500, 4], [2000, 600, 5], [1000, 300, 6]]},
+    # harness args after the seed: ncases ncycles mode [salt]
+    #   mode 0 no device / 1 Intel / 2 Xilinx / 3 undefined inputs / 4 out-of-range addresses / 5 reset-initialised / 6 guards, 3 write ports, ROMs /
+    #   7 writes issued under reset (observation only: counted, never a violation)
+    "streams": {"quick": [[2000, 300, 0], [500, 200, 1], [500, 200, 2], [300, 200, 3], [150, 200, 4], [300, 300, 5], [200, 100, 6], [100, 100, 7]],
+                "thorough": [[12000, 400, 0], [4000, 300, 1], [4000, 300, 2], [2000, 300, 3], [1000, 300, 4], [2000, 400, 5], [1000, 200, 6], [500, 3000, 0, 1], [500, 100, 7]]},
     "search": [[3000, 300, 0], [600, 200, 1], [600, 200, 2], [600, 300, 5]],
     "signature": signature,
     "eval_key": "ops",
